@@ -285,6 +285,16 @@ def c06(h, rec, twin, rep):
     else:
         if rec.steps_after != rec.steps_before:
             raise Failure("C06:generative-counts", f"generative_step moved env.steps {rec.steps_before} -> {rec.steps_after}")
+        # the goal query about the CURRENT state is not touched by a generative step (whatever state object it was given)
+        cur = h.dyn(env.current_state.tensor)
+        cur_goal = all(cur[a][1] == M.ROOT for a in spec.sensitive)
+        for label, got in (("goal_reached()", env.goal_reached()), ("goal_reached(current_state)", env.goal_reached(env.current_state))):
+            if bool(got) is not cur_goal:
+                raise Failure("C06:goal-query-after-generative", f"after generative_step({rec.act}) on "
+                              f"{'the current state object' if rec.state_arg_is_current else 'an earlier state'}: {label}={got} but the "
+                              f"current state's sensitive access is { {a: cur[a][1] for a in spec.sensitive} }")
+        if goal and not cur_goal and rec.state_arg_is_current:
+            rep.count("C06:generative-win-from-live-state")
     accs = [rec.post[a][1] for a in spec.sensitive]
     if any(x == M.USER for x in accs) or (len(accs) > 1 and sum(1 for x in accs if x == M.ROOT) == len(accs) - 1):
         rep.nontriv("partial", h.fp, M.state_key(rec.pred.state))
